@@ -119,6 +119,17 @@ def gen_inputs(run):
         out.append(("extreme-literal", ("TYPE\n  T : INT (%s..%s);\n  A : ARRAY [%s..%s] OF INT;\nEND_TYPE\n" % (l, l, l, l)).encode()))
         out.append(("extreme-literal", ("CONFIGURATION c\nRESOURCE r ON PLC\nTASK t(INTERVAL := %s, PRIORITY := %s);\nPROGRAM i WITH t : p;\nEND_RESOURCE\nEND_CONFIGURATION\n" % (l, l)).encode()))
         out.append(("extreme-literal", ("PROGRAM p\nVAR x AT %s : BOOL; END_VAR\nEND_PROGRAM\n" % l).encode()))
+    # every literal of the C09 families (integers in four bases, reals, durations with fractions around the 15-digit limit,
+    # dates, times of day, strings, addresses): each is an input that must be answered, whatever its value
+    import importlib
+    c09 = importlib.import_module("props.C09")
+    lit_cases = c09.gen_cases(run)
+    if not thorough and len(lit_cases) > 1500:
+        keep = [c for c in lit_cases if c.tag.startswith("duration") or c.tag.startswith("tod") or c.tag.startswith("dt")]
+        rest = [c for c in lit_cases if c not in keep]
+        lit_cases = keep + rng.sample(rest, max(0, 1500 - len(keep))) if len(keep) < 1500 else rng.sample(keep, 1500)
+    for c in lit_cases:
+        out.append(("literal-family", c.src.encode()))
     # the OSCAT description markers the preprocessor looks for, in every arrangement of up to four pieces
     import itertools
     pieces = ["(*@KEY@:DESCRIPTION*)", "(*@KEY@:END_DESCRIPTION*)", " x := 1; ", "\n(* c *)\n"]
